@@ -222,49 +222,61 @@ func c27Copy(t *rapid.T, col *ev.Collector) {
 	}
 }
 
+var colC27 *ev.Collector
+
+// propC27 is the property of C27; it is shared by the rapid test and the native
+// fuzz target.
+func propC27(t *rapid.T) {
+	col := colC27
+	for n := 0; n < 8; n++ {
+		col.Case()
+		switch rapid.IntRange(0, 15).Draw(t, "which") {
+		case 0:
+			c27Uint[uint8](t, col, "uint8")
+		case 1:
+			c27Uint[uint16](t, col, "uint16")
+		case 2:
+			c27Uint[uint32](t, col, "uint32")
+		case 3:
+			c27Uint[uint64](t, col, "uint64")
+		case 4:
+			c27Uint[uint](t, col, "uint")
+		case 5:
+			c27Int[int8](t, col, "int8")
+		case 6:
+			c27Int[int16](t, col, "int16")
+		case 7:
+			c27Int[int32](t, col, "int32")
+		case 8:
+			c27Int[int64](t, col, "int64")
+		case 9:
+			c27Int[int](t, col, "int")
+		case 10:
+			c27ReadBack[uint8](t, col, "uint8")
+		case 11:
+			c27ReadBack[uint16](t, col, "uint16")
+		case 12:
+			c27ReadBack[uint32](t, col, "uint32")
+		case 13:
+			c27ReadBack[uint64](t, col, "uint64")
+		default:
+			c27Copy(t, col)
+		}
+	}
+}
+
 func TestC27(t *testing.T) {
-	col := ev.New("C27", "rapid: all 10 integer types x widths {0..16,255} x boundary-biased values (0, +-1, +-2^(8k), "+
+	colC27 = ev.New("C27", "rapid: all 10 integer types x widths {0..16,255} x boundary-biased values (0, +-1, +-2^(8k), "+
 		"+-2^(8k)+-1, +-2^(8k-1), +-2^(8k-1)-1, all-ones, random); oracle = math/big range test and two's complement "+
 		"encoding; plus read-back ConstUint[T] of arbitrary byte strings and copy semantics of NewConst/WithWidth. "+
 		"non-trivial = width narrower than the type with a boundary value, read-back of a constant wider than T, or "+
 		"source length != width; distinct by (type,width,value)")
+	col := colC27
 	defer col.Flush()
 
-	rapid.Check(t, func(t *rapid.T) {
-		for n := 0; n < 8; n++ {
-			col.Case()
-			switch rapid.IntRange(0, 15).Draw(t, "which") {
-			case 0:
-				c27Uint[uint8](t, col, "uint8")
-			case 1:
-				c27Uint[uint16](t, col, "uint16")
-			case 2:
-				c27Uint[uint32](t, col, "uint32")
-			case 3:
-				c27Uint[uint64](t, col, "uint64")
-			case 4:
-				c27Uint[uint](t, col, "uint")
-			case 5:
-				c27Int[int8](t, col, "int8")
-			case 6:
-				c27Int[int16](t, col, "int16")
-			case 7:
-				c27Int[int32](t, col, "int32")
-			case 8:
-				c27Int[int64](t, col, "int64")
-			case 9:
-				c27Int[int](t, col, "int")
-			case 10:
-				c27ReadBack[uint8](t, col, "uint8")
-			case 11:
-				c27ReadBack[uint16](t, col, "uint16")
-			case 12:
-				c27ReadBack[uint32](t, col, "uint32")
-			case 13:
-				c27ReadBack[uint64](t, col, "uint64")
-			default:
-				c27Copy(t, col)
-			}
-		}
-	})
+	rapid.Check(t, propC27)
 }
+
+// FuzzC27 drives the same property with Go's coverage-guided fuzzer (thorough
+// tier only; see DESIGN.md).
+func FuzzC27(f *testing.F) { f.Fuzz(rapid.MakeFuzz(propC27)) }
